@@ -36,14 +36,15 @@ const strictModelEquality = false
 
 // Case is one replayable evaluation.
 type Case struct {
-	Mode  string `json:"mode"`                  // "lex" | "fs" | "hist" (a sequence of calls in one process)
-	Seq   []Call `json:"seq,omitempty"`         // hist mode: the calls, in order
-	Base  string `json:"base,omitempty"`        // fs mode: "$T" stands for the temporary root
-	Path  []byte `json:"path,omitempty"`        // raw URL path (base64 in JSON: arbitrary bytes)
-	PathQ string `json:"path_quoted,omitempty"` // the same, Go-quoted, for the reader
-	Dir   string `json:"dir,omitempty"`         // fs mode: directory the base denotes, relative to $T
-	Chdir string `json:"chdir,omitempty"`       // fs mode: working directory relative to $T
-	Got   string `json:"got,omitempty"`         // informational
+	Mode  string    `json:"mode"`                  // "lex" | "fs" | "hist" (a sequence of calls in one process)
+	Seq   []Call    `json:"seq,omitempty"`         // hist mode: the calls, in order
+	Conc  *ConcArgs `json:"conc,omitempty"`        // conc mode: a concurrent scenario
+	Base  string    `json:"base,omitempty"`        // fs mode: "$T" stands for the temporary root
+	Path  []byte    `json:"path,omitempty"`        // raw URL path (base64 in JSON: arbitrary bytes)
+	PathQ string    `json:"path_quoted,omitempty"` // the same, Go-quoted, for the reader
+	Dir   string    `json:"dir,omitempty"`         // fs mode: directory the base denotes, relative to $T
+	Chdir string    `json:"chdir,omitempty"`       // fs mode: working directory relative to $T
+	Got   string    `json:"got,omitempty"`         // informational
 }
 
 type stats struct {
@@ -69,6 +70,9 @@ type runner struct {
 	st    *stats
 	env   *fsEnv
 	notes []string
+
+	kept  [retainWindow]keptRes // retained-result oracle: the last results exactly as returned
+	keptN int64
 
 	histSeen map[string]Call // history shards: concatenation base+path -> last call made with it in this process
 }
@@ -98,6 +102,9 @@ func (r *runner) runCase(cs *Case) (key, expected, observed string, herr error) 
 	if cs.Mode == "hist" {
 		return r.runHist(cs)
 	}
+	if cs.Mode == "conc" {
+		return r.runConc(cs)
+	}
 	st := r.st
 	p := string(cs.Path)
 	base := cs.Base
@@ -118,6 +125,7 @@ func (r *runner) runCase(cs *Case) (key, expected, observed string, herr error) 
 	id := fmt.Sprintf("base=%s:path=%s", q(cs.Base), q(p))
 
 	got, pan := resolve(base, p)
+	snap := strings.Clone(got) // what the caller was given, before anything else is asked
 	if pan != nil {
 		return "panic:" + id, "no panic", fmt.Sprintf("panic: %v", pan), nil
 	}
@@ -209,7 +217,8 @@ func (r *runner) runCase(cs *Case) (key, expected, observed string, herr error) 
 	} else {
 		st.add("agreement_after_normalisation_only", 1)
 	}
-	return "", "", "", nil
+	// ---- retained results: what was returned earlier must still read the same -------------
+	return r.retain(cs, base, got, snap)
 }
 
 // ---------------------------------------------------------------------------------------
@@ -219,7 +228,7 @@ type mon struct{}
 func (mon) Name() string { return "urlpath" }
 
 func (mon) Level(string) (string, string) {
-	return "exploration", "exhaustive: every string up to the stated length over {'/','.','a','\\'} x 12 spellings of the base (lexical model) and x 5 absolute + 7 relative (after chdir) spellings of a base inside a temporary tree with secrets outside (kernel-judged: inode and content reached by stat/open of the result); plus seeded random longer paths (segments '..', '...', '. .', '%2e%2e', backslash forms, SECRET, arbitrary NUL-free bytes) and random bases. distinct_nontrivial = distinct URL paths whose evaluation discards at least one '..' at the root of the URL path, i.e. that try to climb out of the base (lexical shards), and distinct (base, path) pairs of that kind (canary shards). History shards: sequences of calls in one process, each call judged by the same oracles - for bases with '..' inside and every textual cut base = A + rest at a '/', the two different questions (base, p) and (A, rest+p) with the same concatenation, back to back (each twice), in both orders (separate processes) and in batches of 40 / 250 such groups (first calls of all groups, then the counterpart calls), lexically and inside the canary tree; plus random segment strings all of whose cuts are asked in random order; distinct_nontrivial there = distinct colliding pairs"
+	return "exploration", "exhaustive: every string up to the stated length over {'/','.','a','\\'} x 12 spellings of the base (lexical model) and x 5 absolute + 7 relative (after chdir) spellings of a base inside a temporary tree with secrets outside (kernel-judged: inode and content reached by stat/open of the result); plus seeded random longer paths (segments '..', '...', '. .', '%2e%2e', backslash forms, SECRET, arbitrary NUL-free bytes) and random bases. distinct_nontrivial = distinct URL paths whose evaluation discards at least one '..' at the root of the URL path, i.e. that try to climb out of the base (lexical shards), and distinct (base, path) pairs of that kind (canary shards). History shards: sequences of calls in one process, each call judged by the same oracles - for bases with '..' inside and every textual cut base = A + rest at a '/', the two different questions (base, p) and (A, rest+p) with the same concatenation, back to back (each twice), in both orders (separate processes) and in batches of 40 / 250 such groups (first calls of all groups, then the counterpart calls), lexically and inside the canary tree; plus random segment strings all of whose cuts are asked in random order; distinct_nontrivial there = distinct colliding pairs. Retained results: in every shard the results of the last 64 calls are kept exactly as returned next to a copy taken at return; after every call the 4 most recent, every 16 calls and at the end all kept strings must still equal their copy (a changed one is judged again for containment); plus concurrent scenarios (4 / 16 goroutines with bases of their own calling at once, each checking its own 32 kept results after each of its calls)"
 }
 
 func (mon) Assumptions(string) []string {
@@ -228,6 +237,7 @@ func (mon) Assumptions(string) []string {
 		"a dot segment is a segment equal to '.' or '..'; '...', '. .', '%2e%2e' are ordinary names (no percent-decoding is part of ResolveUrlPath)",
 		"'lies beneath the base' and 'base joined with the path' are judged after lexical normalisation of the returned path by the monitor's own segment stack (no path.Clean / filepath.Clean / filepath.Join in the model): a result that is contained but not in canonical form is counted, not reported",
 		"for URL paths containing dot segments the statement prescribes containment only; a contained result that differs from the segment-stack model is counted (dotted_differs_from_model) and noted, not reported as a violation",
+		"a returned path is a value: the string handed to the caller must keep reading the same (and stay inside its base) while later calls are made, in the same or in other goroutines",
 		"empty base excluded; no symbolic links inside the canary tree",
 		"canary: base '/' is not used with the file system (everything is beneath it)",
 	}
@@ -235,7 +245,7 @@ func (mon) Assumptions(string) []string {
 
 func (mon) Finish(prop, tier string, m *drv.Merged) []string {
 	var out []string
-	need := []string{"fs_selftest_ok", "fs_hit_inside_below_base", "fs_read_inside", "fs_dotfree_entry_checked", "climb_attempts", "dotfree_paths", "fs_rel_cases", "fs_abs_cases", "exact_model_agreement", "hist_calls", "hist_colliding_pairs", "hist_fs_calls"}
+	need := []string{"fs_selftest_ok", "fs_hit_inside_below_base", "fs_read_inside", "fs_dotfree_entry_checked", "climb_attempts", "dotfree_paths", "fs_rel_cases", "fs_abs_cases", "exact_model_agreement", "hist_calls", "hist_colliding_pairs", "hist_fs_calls", "retained_checks", "conc_calls", "conc_retained_checks"}
 	for _, k := range need {
 		if m.Sum[k] == 0 {
 			out = append(out, "observed no "+k)
@@ -302,6 +312,14 @@ func (mon) Plan(prop, tier string, seed int64) []drv.Shard {
 	}
 	for p := 0; p < hsParts; p++ {
 		add(fmt.Sprintf("hist-split-%d", p), false, shardArgs{Kind: "hist-split", Part: p, Parts: hsParts, Count: hs / hsParts})
+	}
+	// concurrent retained-result scenarios (the pool / cache of an implementation is shared)
+	cc := 20000
+	if tier == "thorough" {
+		cc = 400000
+	}
+	for _, g := range []int{4, 16} {
+		add(fmt.Sprintf("retain-conc-g%d", g), false, shardArgs{Kind: "retain-conc", Parts: g, Count: cc})
 	}
 	return out
 }
@@ -542,7 +560,7 @@ func (mn mon) Run(sh drv.Shard, c *drv.Ctx) {
 			}
 			sampleEvery(cs, i < 2)
 			c.MaxOf("random_path_len", int64(len(cs.Path)))
-			if !exec(cs) {
+			if !exec(asHistory(cs)) {
 				break
 			}
 		}
@@ -577,7 +595,7 @@ func (mn mon) Run(sh drv.Shard, c *drv.Ctx) {
 			if i < 1 {
 				c.Sample(map[string]any{"mode": "fs", "base": cs.Base, "chdir": cs.Chdir, "path": strconv.QuoteToASCII(string(cs.Path))})
 			}
-			if !exec(cs) {
+			if !exec(asHistory(cs)) {
 				break
 			}
 		}
@@ -608,6 +626,23 @@ func (mn mon) Run(sh drv.Shard, c *drv.Ctx) {
 		if a.Kind == "hist-fs" {
 			st.add("hist_fs_calls", st.m["hist_calls"])
 		}
+	case "retain-conc":
+		for rep := 0; rep < 4; rep++ {
+			cs := Case{Mode: "conc", Conc: &ConcArgs{G: a.Parts, Calls: a.Count / 4, Seed: sh.Seed*31 + int64(rep)}}
+			c.Progress(fmt.Sprintf("conc g=%d calls=%d rep=%d", a.Parts, a.Count/4, rep), true)
+			k, e, o, herr := rn.runCase(&cs)
+			if herr != nil {
+				c.Inconclusive(herr.Error())
+				break
+			}
+			c.DistinctStr(fmt.Sprintf("conc\x00%d\x00%d", a.Parts, rep))
+			if k != "" {
+				c.Violate(k, cs, e, o)
+				break
+			}
+		}
+		c.Eval(st.m["conc_calls"])
+		c.MaxOf("conc_goroutines", int64(a.Parts))
 	case "hist-split":
 		r := rand.New(rand.NewSource(sh.Seed*1000003 + 15485863 + int64(a.Part)))
 		for i := 0; i < a.Count; i++ {
@@ -619,6 +654,9 @@ func (mn mon) Run(sh drv.Shard, c *drv.Ctx) {
 			}
 			c.Eval(int64(n - 1))
 		}
+	}
+	if k, e, o, cs := rn.finalSweep(); k != "" {
+		c.Violate(k, cs, e, o)
 	}
 	for k, v := range st.m {
 		if v != 0 {
@@ -636,7 +674,7 @@ func (mn mon) Replay(v drv.Violation, c *drv.Ctx) {
 		c.Inconclusive("replay: cannot decode case: " + err.Error())
 		return
 	}
-	if cs.Mode != "lex" && cs.Mode != "fs" && !(cs.Mode == "hist" && len(cs.Seq) > 0) {
+	if cs.Mode != "lex" && cs.Mode != "fs" && !(cs.Mode == "hist" && len(cs.Seq) > 0) && !(cs.Mode == "conc" && cs.Conc != nil) {
 		c.Inconclusive("replay: not a (base, path) case (crash records are replayed by re-running the check)")
 		fmt.Fprintln(os.Stderr, "replay: the recorded case is not a (base, path) case")
 		return
@@ -650,6 +688,9 @@ func (mn mon) Replay(v drv.Violation, c *drv.Ctx) {
 		return
 	}
 	c.Eval(1)
+	if k == "" {
+		k, e, o, cs = rn.finalSweep()
+	}
 	if k != "" {
 		c.Violate(k, cs, e, o)
 	}
